@@ -1,3 +1,3 @@
 SPECIFICATION FairSpec
-CONSTANTS Scenarios <- Scn
+CONSTANTS Scenarios <- Scn  MutDestroyAfterHandover = FALSE
 PROPERTY Terminates
